@@ -63,7 +63,15 @@ def scenario(params, ch):
         if e is not None:
             ch.flag("send-raises", "%s raises %s" % (api, type(e).__name__), "%s(len %d) raised %r" % (api, size, e))
             return
-        if other == "burst":
+        wanted = [data]
+        if other == "frag":
+            # a second guaranteed fragmented message in flight at the same time: both must arrive
+            second = payload(7, max(size, 1600) + 100)
+            wanted.append(second)
+            e2 = app_send(w, mon, sender, second, "retry", tag="g2", api=method)
+            if e2 is not None:
+                ch.flag("send-raises", "%s raises %s" % (api, type(e2).__name__), repr(e2))
+        elif other == "burst":
             # the message leaves alone in its datagram, then the same sender bursts 300 tiny messages:
             # a retransmission of the guaranteed message arrives behind >256 newer message numbers
             w.run(1)
@@ -75,6 +83,8 @@ def scenario(params, ch):
             app_send(w, mon, "s" if sender == "c" else "c", payload(3, 30), "best")
         if blackout:
             direction, start, ticks = blackout
+            if direction == "data":
+                direction = "c2s" if sender == "c" else "s2c"
             w.run(start)
             w.start_blackout(direction, ticks)
             w.run(max(0, window - start))
@@ -87,7 +97,7 @@ def scenario(params, ch):
         recv = "s" if sender == "c" else "c"
 
         def done(w):
-            return mon.delivered[recv].get(data, 0) >= 1
+            return all(mon.delivered[recv].get(x, 0) >= 1 for x in wanted)
         delivered = done(w) or w.run(horizon - w.tickno, done)
         ch.steps = w.tickno
         c_ok = w.clients[0].conn is not None and w.clients[0].conn.status == ConnectionStatus.CONNECTED
@@ -144,6 +154,13 @@ def params_list(tier):
                         if other == "burst" and (size > 2600 or (tier == "quick" and mtu != 1500)):
                             continue
                         out.append((api, size, mtu, fates, b, other, order, latency, 8))
+            # two fragmented guaranteed messages in flight + an outage of the data direction longer than the
+            # receiver-side expiry (1 + n/2 s), starting after the first fragments went out
+            if size > 1434 or mtu == 512:
+                for b in (("data", 8, 150), ("data", 8, 200), ("data", 6, 100)):
+                    if tier == "quick" and (b[2] != 200 or mtu != 1500):
+                        continue
+                    out.append((api, size, mtu, ("drop", "delay8"), b, "frag", "cs", 1, 10))
     if tier == "thorough":
         out.append(("c.send_guaranteed", 256 * 1024, 1500, (), None, False, "cs", 1, 4))
         out.append(("s.send_guaranteed", 256 * 1024, 1500, (), ("s2c", 40, 30), False, "cs", 1, 4))
